@@ -86,12 +86,18 @@ use std::convert::TryInto;
 use core::ops::Range;
 use std::collections::HashMap;
 use std::collections::BTreeMap;
+use std::collections::HashSet;
 use vstd::std_specs::cmp::PartialEqSpec;
 use vstd::std_specs::iter::IteratorSpec;
 
 verus! {
 
-/*@rules R1 R10 @*/
+/*@rules R1 R10
+   SUB(from=raw.sort_unstable_by_key(|range| range.start);;to=vx_sort_by_start(&mut raw))
+   SUB(from=std::str::from_utf8(buf).map_err(|_| Error::UnexpectedValue);;to=vx_from_utf8(buf).map_err(|_e: Utf8ErrorStandIn| Error::UnexpectedValue))
+   SUB(from=unsafe { std::str::from_utf8_unchecked(buf) };;to=vx_from_utf8_unchecked(buf))
+   SUB(from=entries.sort_by_key(|(range, _)| range.start);;to=vx_sort_entries_by_start(&mut entries))
+@*/
 
 /*@include units/lib0_common/base.rs @*/
 
@@ -117,6 +123,8 @@ pub mod vx_dc {
 
 /*@include units/dec_comp/env.rs @*/
 
+/*@include units/dec_comp/canon.rs @*/
+
 /*@include units/dec_comp/ids.rs @*/
 
 /*@include units/dec_comp/sv.rs @*/
@@ -124,6 +132,8 @@ pub mod vx_dc {
 /*@include units/dec_comp/aw.rs @*/
 
 /*@include units/dec_comp/any.rs @*/
+
+/*@include units/dec_comp/idmap.rs @*/
 
 /*@include units/dec_comp/enc.rs @*/
 }
